@@ -226,14 +226,21 @@ pub fn field_conforms(ft: &FieldType, v: &FieldValue, strict: bool) -> Result<()
 
 /// The schema-less image of a value: what remains of it when no type is attached.
 pub fn generic(v: &FieldValue) -> FieldValue {
+    generic_mode(v, false)
+}
+
+/// `json`: the schema-less image through the JSON rendering (an f32 comes back as the f64 parse
+/// of its shortest decimal instead of its exact widening).
+pub fn generic_mode(v: &FieldValue, json: bool) -> FieldValue {
     use FieldValue as V;
     match v {
         V::I64(i) if *i >= 0 => V::U64(*i as u64),
+        V::F32(f) if json && f.is_finite() => V::F64(serde_json::to_string(f).unwrap().parse().unwrap()),
         V::F32(f) => V::F64(*f as f64),
         V::Vector(xs) => V::Array(xs.iter().map(|x| V::U64(x.to_bits() as u64)).collect()),
         V::Json(j) => crate::r#gen::json_shape(j),
-        V::Array(xs) => V::Array(xs.iter().map(generic).collect()),
-        V::Map(m) => V::Map(m.iter().map(|(k, x)| (k.clone(), generic(x))).collect()),
+        V::Array(xs) => V::Array(xs.iter().map(|x| generic_mode(x, json)).collect()),
+        V::Map(m) => V::Map(m.iter().map(|(k, x)| (k.clone(), generic_mode(x, json))).collect()),
         other => other.clone(),
     }
 }
@@ -277,16 +284,20 @@ fn same_json(a: &Json, b: &Json) -> bool {
 /// bit-identical in that variant; where it declares none (`Array([])`, `Map({})`, non-JSON
 /// leftovers under `Json`) their schema-less images must be bit-identical.
 pub fn same_declared(ft: &FieldType, a: &FieldValue, b: &FieldValue) -> bool {
+    same_declared_mode(ft, a, b, false)
+}
+
+pub fn same_declared_mode(ft: &FieldType, a: &FieldValue, b: &FieldValue, json: bool) -> bool {
     use FieldType as T;
     use FieldValue as V;
     match (ft, a, b) {
         (T::Option(_), V::Null, V::Null) => true,
-        (T::Option(t), a, b) => same_declared(t, a, b),
-        (T::Array(ts), V::Array(x), V::Array(y)) if ts.len() == 1 => x.len() == y.len() && x.iter().zip(y).all(|(p, q)| same_declared(&ts[0], p, q)),
+        (T::Option(t), a, b) => same_declared_mode(t, a, b, json),
+        (T::Array(ts), V::Array(x), V::Array(y)) if ts.len() == 1 => x.len() == y.len() && x.iter().zip(y).all(|(p, q)| same_declared_mode(&ts[0], p, q, json)),
         (T::Array(ts), V::Array(x), V::Array(y)) if ts.len() >= 2 => {
-            x.len() == y.len() && x.len() == ts.len() && ts.iter().zip(x.iter().zip(y)).all(|(t, (p, q))| same_declared(t, p, q))
+            x.len() == y.len() && x.len() == ts.len() && ts.iter().zip(x.iter().zip(y)).all(|(t, (p, q))| same_declared_mode(t, p, q, json))
         }
-        (T::Array(_), a, b) => same_bits(&generic(a), &generic(b)),
+        (T::Array(_), a, b) => same_bits(&generic_mode(a, json), &generic_mode(b, json)),
         (T::Map(m), V::Map(x), V::Map(y)) if !m.is_empty() => {
             if x.len() != y.len() {
                 return false;
@@ -295,14 +306,14 @@ pub fn same_declared(ft: &FieldType, a: &FieldValue, b: &FieldValue) -> bool {
             x.iter().zip(y).all(|((k, p), (l, q))| {
                 k == l
                     && match w.map(|(_, t)| t).or_else(|| m.get(k)) {
-                        Some(t) => same_declared(t, p, q),
+                        Some(t) => same_declared_mode(t, p, q, json),
                         None => false,
                     }
             })
         }
-        (T::Map(_), a, b) => same_bits(&generic(a), &generic(b)),
+        (T::Map(_), a, b) => same_bits(&generic_mode(a, json), &generic_mode(b, json)),
         (T::Json, V::Json(x), V::Json(y)) => same_json(x, y),
-        (T::Json, a, b) => same_bits(&generic(a), &generic(b)),
+        (T::Json, a, b) => same_bits(&generic_mode(a, json), &generic_mode(b, json)),
         (_, a, b) => same_bits(a, b),
     }
 }
